@@ -59,6 +59,7 @@ type c07cfg struct {
 	dialsAtClose int
 	postCall *Call
 	mainEnd  time.Duration
+	pinger   bool // mute server + a steady stream of short-deadline queries on the same transport
 	exhaust  bool // family: >= 100 unanswered queries on consecutive wire IDs, allocator put back on that block
 }
 
@@ -107,6 +108,11 @@ func c07Setup(rc *RunCtx) simrt.Config {
 		c.kind = []TransportKind{TkPipelineStream, TkPipelineDgram}[r.Choose(2)]
 		c.mute, c.closeAt = false, 0
 	}
+	c.pinger = c.mute && c.kind.pipelined() && !c.exhaust && r.Choose(2) == 0
+	if c.pinger {
+		c.closeAt = 0
+	}
+	rc.Cfg["pinger"] = c.pinger
 	rc.Cfg["id_exhaustion"] = c.exhaust
 	rc.Net.ChunkMode = r.Choose(3)
 	rc.Cfg["strategy"] = sname
@@ -218,6 +224,23 @@ func c07Main(rc *RunCtx) {
 			}
 			simrt.Send(0, done, struct{}{})
 		})
+	}
+	if c.pinger {
+		// Other traffic keeps flowing over the same (entirely silent) connection
+		// at intervals below the liveness timeout, for longer than the liveness
+		// bound: the dead connection must still be detected and the calls with an
+		// unbounded context must still return.
+		simrt.GoNamed("pinger", func() {
+			for s := 0; s < 25; s++ {
+				call := w.NewCall(50, s, uint16(simrt.Choose(65536)), 1)
+				ctx, cancel := context.WithTimeout(context.Background(), 3*time.Second)
+				call.Ctx, call.Cancel, call.Deadline = ctx, cancel, simrt.S.Elapsed()+3*time.Second
+				w.Exchange(u, call)
+				cancel()
+			}
+			simrt.Send(0, done, struct{}{})
+		})
+		simrt.Recv(0, done)
 	}
 	for i := 0; i < c.callers; i++ {
 		simrt.Recv(0, done)
